@@ -389,12 +389,12 @@ func c09CheckModule(w *World, r *Report) {
 	// rank constants
 	rank := func(e ast.Expr) (int64, bool) { return ConstInt(p, e) }
 	type armInfo struct {
-		kws   []string
-		guard string
-		cmpTo int64
-		setTo int64
+		kws    []string
+		guard  string
+		cmpTo  int64
+		setTo  int64
 		hasSet bool
-		def   bool
+		def    bool
 	}
 	var arms []armInfo
 	prevObj := types.Object(nil)
